@@ -300,6 +300,19 @@ pub fn run_c08(tier: Tier, seed: u64, index: u64, scratch: &Scratch, rec: &mut R
             rec.probe("failing inspection inside a delegated level, surplus evidence");
         }
     }
+    // another extra cell: with two root inspections, the second one forbids the first one's link file among its
+    // materials — the verifier leaves that file in the working directory before the second command starts
+    if n_insp >= 2 {
+        let mut t = base.clone();
+        let first = t.root.layout.inspect[0].name.clone();
+        if t.root.layout.inspect[1].name != first && !t.root.layout.steps.iter().any(|s| s.name == first) {
+            t.root.layout.inspect[1].exp_mat = vec![vec!["DISALLOW".into(), format!("{first}.link")]];
+            t.labels.push("stage=none".into());
+            t.labels.push("SECOND-INSPECTION-FORBIDS-FIRST-LINK".into());
+            exec_cell("C08", &t, &base, scratch, rec, seed, index);
+            rec.probe("second inspection forbids the first one's link file");
+        }
+    }
     for stage in stages {
         // one concrete failing world per stage (placement drawn from the seed)
         let mut staged = base.clone();
